@@ -14,35 +14,55 @@ from vf.ref import c07_ref as R
 from vf.ref import linalg as L
 
 RULE = (
-    "(a) compile_*: Hypothesis draws a circuit recipe on 1-3 wires (line/grid/named/mixed qubits, wire order != sorted order) whose "
-    "operations are library gates from the shared gate table (arity 1-3), MatrixGates built from drawn floats (1 qubit; 2 qubits via "
-    "KAK form k1(x)k2 . exp(i(xXX+yYY+zZZ)) . k3(x)k4 with the Weyl point drawn from {local, CNOT, iSWAP, SWAP, sqrt-iSWAP(+inv), B, "
-    "sqrt-SWAP, SYC class, partial-CZ line, 2-parameter plane, generic, +-1e-9..1e-5 off a boundary}; 3 qubits via Matrix3), gates that "
-    "are already native for the drawn target, nested CircuitOperations (repetitions 1-2, deep on/off), operations tagged with a tag in "
-    "tags_to_ignore, optional terminal measurement; x a target-gateset recipe (CZ: atol, allow_partial_czs, additional_gates, "
-    "preserve_moment_structure, reorder_operations; sqrt-iSWAP: inv, required count, additional_gates; Sycamore (tabulation in thorough); "
-    "GoogleCZ: eject_paulis only with the four Pauli-rotation type families; IonQ API/Aria/Forte; AQT; Pasqal +-controlled ops) x "
-    "max_num_passes in {1,2,None}. Non-trivial: output != input AND the input holds a >=2-qubit operation the target does not accept. "
-    "(b) route: connected graph on 2-7 nodes = drawn spanning tree + drawn extra edges (line/star/ring/tree/sparse/dense, 1/6 directed), "
-    "circuit of 1-2 qubit library gates, SWAPs and measurements on <=|V| logical qubits, mapper in {default, LineInitialMapper, "
-    "HardCodedInitialMapper with a drawn injective map onto a connected node subset}, lookahead_radius, tag_inserted_swaps. Non-trivial: "
-    ">=1 swap inserted. (c) device_*: drawn device (GridDevice from a DeviceSpecification proto / GridDeviceMetadata / proto round trip "
-    "with drawn qubits, pairs, gate specs; IonQAPIDevice; AQTDevice; PasqalDevice; PasqalVirtualDevice with drawn positions and control "
-    "radius) and a list of 6-14 operations from a 45-gate pool mixing members / non-members, on-/off-device qubits, allowed / "
-    "disallowed pairs, tags. Non-trivial: at least one accepted and one rejected operation. Distinct = distinct recipe hash."
+    "(a) compile_core / compile_vendor / twoq / sqrt_iswap_required / syc_tabulation: Hypothesis draws a circuit recipe on 1-3 wires "
+    "(line/grid/named/mixed qubits, wire order != sorted order) whose operations are library gates from the shared gate table "
+    "(arity 1-3), textbook named gates (H, T, CNOT, SWAP, CCX, CCZ**t, ...), MatrixGates from drawn floats (1 qubit; 2 qubits in KAK "
+    "form k1(x)k2 . exp(i(xXX+yYY+zZZ)) . k3(x)k4 with the Weyl point drawn from {local, CNOT, iSWAP, SWAP, sqrt-iSWAP(+inv), B, "
+    "sqrt-SWAP, SYC class, partial-CZ line, 2-parameter plane, generic, +-1e-9..1e-5 off a boundary}; 3 qubits via Matrix3), gates "
+    "already native for the drawn target, nested CircuitOperations (repetitions 1-2, context.deep on/off), operations tagged with a "
+    "tag in tags_to_ignore, optional terminal measurement, optional global-phase operations; x a target-gateset recipe (CZ: atol, "
+    "allow_partial_czs, additional_gates, preserve_moment_structure, reorder_operations; sqrt-iSWAP: inv, required count 0-3, "
+    "additional_gates; Sycamore (+tabulation in syc_tabulation); GoogleCZ: eject_paulis only with the four Pauli-rotation type "
+    "families; IonQ API / Aria / Forte; AQT; Pasqal +-controlled ops) x max_num_passes in {1,2,None}. Non-trivial: output != input "
+    "AND the input holds a >=2-qubit operation the target does not accept. "
+    "(b) route: connected graph on 2-7 nodes = drawn spanning tree + drawn extra edges (line/star/ring/tree/sparse/dense; 1/6 as "
+    "DiGraph, half of those with every edge in both directions), circuit of 1-2 qubit library gates, SWAPs and 1-2 qubit measurements "
+    "(+ optional terminal all-qubit measurement) on <= |V| logical qubits, mapper in {default, LineInitialMapper, "
+    "HardCodedInitialMapper with a drawn injective map onto a connected node subset (possibly larger than the circuit)}, "
+    "lookahead_radius in {1,2,3,8,20}, tag_inserted_swaps. Non-trivial: the reported final permutation is not the identity / a tagged "
+    "swap was inserted. "
+    "(c) device_grid / device_vendor: drawn device (GridDevice from a DeviceSpecification proto incl. distractor target sets, from "
+    "GridDeviceMetadata, or proto round trip, with drawn qubits / pairs / gate specs; IonQAPIDevice; AQTDevice; PasqalDevice; "
+    "PasqalVirtualDevice with drawn positions, qubit type and control radius) and 6-14 operations from a 45-gate pool mixing members / "
+    "non-members, on-/off-device qubits, allowed / disallowed pairs, tags, plus a circuit assembled from them. Non-trivial: at least "
+    "one accepted and one rejected operation. Distinct = distinct recipe hash."
 )
 ASSUMPTIONS = [
     "cirq.unitary(op) of a single operation is trusted (C03/C04); composition of the input and of the compiled / routed circuit, the "
     "final permutation and the relabelling are recomputed with vf.ref.linalg",
     "equivalence tolerance: max(1e-6, 10*atol) * number of input operations (errors of independently decomposed components add up); "
-    "routing is compared exactly (1e-8 * (1+ops))",
+    "routing is compared exactly (1e-8 * (1+ops)); Sycamore tabulation: trace fidelity >= 0.85 for max_infidelity 0.1",
     "`op in gateset` and gateset.validate are the observation for 'native' (the property says 'operations the target accepts'); the "
-    "device sub-checks use hand-written truth tables per pool gate instead",
-    "documented rejections counted as rejects: required_sqrt_iswap_count ValueError; 'Unable to convert' ValueError only when the input "
-    "decomposes to a global-phase operation and the target has no GlobalPhaseGate",
-    "GridDevice: a 2-qubit measurement / wait may address any two device qubits (module comment on _VARIADIC_GATE_TYPES)",
+    "device sub-checks instead use hand-written truth tables per pool gate (vf/ref/c07_ref.py) derived from the device docstrings",
+    "documented rejections counted as rejects: required_sqrt_iswap_count ValueError (cross-checked against the unrestricted synthesis "
+    "in sqrt_iswap_required); 'Unable to convert' ValueError only when the input decomposes to a global-phase operation and the "
+    "target has no GlobalPhaseGate (AQT, Pasqal); any other ValueError from the compiler is a violation",
+    "GridDevice: a 2-qubit measurement / wait may address any two device qubits (module comment on _VARIADIC_GATE_TYPES); "
+    "Pasqal: measurement with invert_mask raises the documented NotImplementedError",
+    "directed device graphs: a routed operation must follow the direction of its edge (the router's own adjacency test), inserted "
+    "SWAPs on one-way edges are the documented CNOT/H decomposition",
+    "non-termination watchdogs (120 s routing, 300 s compilation; the guarded calls take milliseconds) turn a hang into a violation",
 ]
-SENSITIVITY = []
+SENSITIVITY = [
+    "core: keep-old-vs-new two-qubit count choice inverted", "core: tags_to_ignore not passed to the decompose step",
+    "core: deep=True never decomposes merged intermediate circuit ops", "core: CZ synthesis partial-CZ exponent sign",
+    "core: xx+yy via full CZs, y rotation on the wrong qubit", "core: 2-sqrt-iSWAP region ignores z",
+    "core: MappingManager.apply_swap updates only logical_to_physical", "core: route_circuit reports the inverse of the final permutation",
+    "core: router treats distance-2 qubits as adjacent", "core: GateFamily ignores tags_to_ignore",
+    "google: GridDevice pair check skipped for FSimGate-type gates (SYC)", "google: from_proto takes pairs from non-SYMMETRIC target sets",
+    "aqt: H special case uses ry(+pi/2)", "pasqal: two-qubit synthesis on swapped qubits", "pasqal: virtual device distance limit off by boundary",
+    "ionq: API gateset CCZPowGate decomposition ignores the exponent",
+]
 
 
 class _Hang(BaseException):
@@ -99,10 +119,7 @@ def _has_global_phase(circuit):
     return any(isinstance(o.gate, cirq.GlobalPhaseGate) for o in cirq.decompose(circuit))
 
 
-NATIVE_IONQ = ("aria", "forte")
-
-
-def _compile(case, strict_phase=False):
+def _compile(case):
     g = case["gs"]
     gateset = CG.build_gateset(g)
     circuit, qs, built = CG.build_compile_circuit(case["circ"], g)
@@ -110,32 +127,25 @@ def _compile(case, strict_phase=False):
         raise Reject("empty circuit")
     ctx = cirq.TransformerContext(tags_to_ignore=(CG.IGNORE_TAG,), deep=bool(case.get("deep")))
     before = circuit.copy()
-    # Aria/Forte: their own single-qubit decomposition emits a GlobalPhaseGate operation that they do not accept (candidate F12);
-    # the strict sub-check `ionq_native_strict` demands it, the general one compiles with ignore_failures=True and tolerates exactly
-    # that operation so that equivalence / membership of everything else stays checked.
-    lenient = g["k"] in NATIVE_IONQ and not strict_phase
     try:
         with _watchdog(300, "optimize_for_target_gateset"):
-            out = cirq.optimize_for_target_gateset(circuit, context=ctx, gateset=gateset, ignore_failures=lenient,
+            out = cirq.optimize_for_target_gateset(circuit, context=ctx, gateset=gateset, ignore_failures=False,
                                                    max_num_passes=case.get("passes"))
     except ValueError as e:
         msg = str(e)
         if g["k"] == "sqrt_iswap" and g.get("req") is not None and "cannot be decomposed into exactly" in msg:
             raise Reject("documented ValueError: required_sqrt_iswap_count")
         if msg.startswith("Unable to convert"):
-            if g["k"] in NATIVE_IONQ and "j)" in msg.split(" to target gateset")[0]:
-                raise Violation(f"optimize_for_target_gateset(ignore_failures=False) fails for {g['k']}: the gateset's own decomposition "
-                                f"emits a GlobalPhaseGate operation that the gateset does not accept")
             if cirq.global_phase_operation(1j) not in gateset and _has_global_phase(circuit):
                 raise Reject(f"documented ValueError: global phase operation not convertible [{g['k']}]")
             raise Violation(f"documented-as-possible ValueError for an input made of 1-3 qubit unitaries [{g['k']}]: {msg[:160]}")
         raise
     if circuit != before:
         raise Violation("optimize_for_target_gateset modified its input circuit")
-    return gateset, circuit, qs, built, out, lenient
+    return gateset, circuit, qs, built, out
 
 
-def _check_native(gateset, circuit, out, case, lenient):
+def _check_native(gateset, circuit, out, case):
     ign_in = Counter(op for op in circuit.all_operations() if CG.IGNORE_TAG in op.tags)
     ign_out = Counter(op for op in out.all_operations() if CG.IGNORE_TAG in op.tags)
     if ign_in != ign_out:
@@ -143,14 +153,7 @@ def _check_native(gateset, circuit, out, case, lenient):
                         f"in={sorted(map(repr, ign_in.elements()))} out={sorted(map(repr, ign_out.elements()))}"[:600])
     k = case["gs"]["k"]
 
-    def keep(op):
-        if CG.IGNORE_TAG in op.tags:
-            return False
-        if lenient and isinstance(op.gate, cirq.GlobalPhaseGate):
-            return False
-        return True
-
-    rest = cirq.Circuit(cirq.Moment(op for op in m if keep(op)) for m in out)
+    rest = cirq.Circuit(cirq.Moment(op for op in m if CG.IGNORE_TAG not in op.tags) for m in out)
     for op in rest.all_operations():
         if op not in gateset:
             name = type(op.gate).__name__ if op.gate is not None else type(op.untagged).__name__
@@ -183,11 +186,11 @@ def _check_equiv(circuit, qs, out, case, nops):
 WORST_2Q = {"cz": 3, "gcz": 3, "sqrt_iswap": 3, "syc": 6}
 
 
-def oracle_compile(case, strict_phase=False):
-    gateset, circuit, qs, built, out, lenient = _compile(case, strict_phase)
+def oracle_compile(case):
+    gateset, circuit, qs, built, out = _compile(case)
     g = case["gs"]
     nops = sum(1 for _ in _flat_ops(circuit))
-    _check_native(gateset, circuit, out, case, lenient)
+    _check_native(gateset, circuit, out, case)
     _check_equiv(circuit, qs, out, case, nops)
     in_ops = list(circuit.all_operations())
     unit_in = [op for op in in_ops if not cirq.is_measurement(op)]
@@ -209,10 +212,6 @@ def oracle_compile(case, strict_phase=False):
             "has_measure": bool(case["circ"].get("meas")), "three_qubit_op": any(len(op.qubits) == 3 for op in flat_in),
             "passes": str(case.get("passes")), "eject": bool(g.get("eject")), "nonnative_multi": nonnative_multi,
             "has_additional": bool(g.get("add")), "two_q_out": min(n2_out, 7)}
-
-
-def oracle_ionq_native_strict(case):
-    return oracle_compile(case, strict_phase=True)
 
 
 def oracle_twoq(case):
@@ -282,6 +281,31 @@ def oracle_sqrt_iswap_required(case):
             "cls": case["circ"]["ops"][0].get("p", {}).get("cls", "lib")}
 
 
+def oracle_syc_tabulation(case):
+    """SycamoreTargetGateset(tabulation=...): approximate synthesis.  Own tolerance: the tabulation is built with
+    max_infidelity=0.1 and allow_missed_points=False; the trace fidelity of one compiled 2-qubit unitary must stay above 0.85
+    (known gates use exact decompositions), the output must be native and use at most 6 SYC."""
+    g = dict(case["gs"], k="syc", tab=True, atol=1e-8)
+    gateset = CG.build_gateset(g)
+    circuit, qs, built = CG.build_compile_circuit(case["circ"], g)
+    if not built:
+        raise Reject("empty")
+    out = cirq.optimize_for_target_gateset(circuit, gateset=gateset, ignore_failures=False, max_num_passes=case.get("passes"))
+    _check_native(gateset, circuit, out, dict(case, gs=g))
+    U_in, _ = R.circuit_matrix(circuit, qs)
+    U_out, why = R.circuit_matrix(out, qs)
+    if U_out is None:
+        raise Violation(f"compiled circuit has no unitary: {why}"[:300])
+    fid = abs(np.trace(U_in.conj().T @ U_out)) ** 2 / U_in.shape[0] ** 2
+    if not fid >= 0.85:
+        raise Violation(f"Sycamore tabulation: trace fidelity {fid:.3f} < 0.85 (tabulation max_infidelity 0.1)")
+    n2 = _two_qubit_count(out)
+    if n2 > 6:
+        raise Violation(f"Sycamore tabulation: {n2} two-qubit gates for one 2-qubit unitary")
+    return {"nontrivial": built[0] not in gateset, "exact": bool(fid > 1 - 1e-9), "syc_count": n2,
+            "cls": case["circ"]["ops"][0].get("p", {}).get("cls", "lib")}
+
+
 # =============================================================================================== (b) routing
 
 def _route_setup(case):
@@ -331,6 +355,10 @@ def oracle_route(case):
                                                              tag_inserted_swaps=bool(case["tag"]), initial_mapper=mapper)
     if circuit != before:
         raise Violation("route_circuit modified its input circuit")
+    with _watchdog(120, "RouteCQC.__call__"):
+        called = router(circuit, lookahead_radius=int(case["lookahead"]) or 1, tag_inserted_swaps=bool(case["tag"]), initial_mapper=mapper)
+    if called != routed:
+        raise Violation("RouteCQC.__call__ returns a different circuit than route_circuit()[0] for the same arguments")
     pidx = {p: i for i, p in enumerate(ps)}
     # -- initial map: logical qubits of the circuit -> distinct device qubits
     if not set(circuit.all_qubits()) <= set(initial_map):
@@ -604,59 +632,12 @@ def oracle_device_vendor(case):
 
 # =============================================================================================== known findings
 
-def _diag3_bad_order(circ):
-    """F5 trigger: a ThreeQubitDiagonalGate on qubits (a, b, c) where b has `is_adjacent` and is not adjacent to both a and c."""
-    def ops(lst):
-        for o in lst:
-            if o.get("k") == "cop":
-                yield from ops(o.get("ops", []))
-            else:
-                yield o
-
-    for o in ops(circ.get("ops", [])):
-        if o.get("k") == "lib" and o["g"][0] == "ThreeQubitDiagonal" and len(o.get("w", [])) >= 3:
-            a, b, c = (GC.qubit_for(circ, i) for i in o["w"][:3])
-            if hasattr(b, "is_adjacent") and not (b.is_adjacent(a) and b.is_adjacent(c)):
-                return True
-    return False
-
-
-def _all_native(case):
-    return all(o.get("k") == "native" for o in case["circ"]["ops"])
-
-
 def _walk_ops(lst):
     for o in lst:
         if o.get("k") == "cop":
             yield from _walk_ops(o.get("ops", []))
         else:
             yield o
-
-
-def _bool_controlled_decomposition(case):
-    """F14 trigger: UniformSuperpositionGate with m not a power of two decomposes into controlled operations built with
-    control_values=[False]; cirq.unitary() of such an operation is the identity.  Targets that take cirq.unitary of a single
-    operation (no merge pre-pass: IonQ*, Pasqal) miscompile it."""
-    if case["gs"]["k"] not in ("pasqal", "ionq", "aria", "forte"):
-        return False
-    for o in _walk_ops(case["circ"].get("ops", [])):
-        if o.get("k") == "lib" and o["g"][0] == "UniformSuperposition":
-            m = int(o["g"][1]["m"])
-            if m > 1 and m & (m - 1):
-                return True
-    return False
-
-
-def _ionq_partially_off_device(case):
-    """F13 trigger: an API gate on >=2 qubits of which some, but not all, are on the device."""
-    if case.get("kind") != "ionq":
-        return False
-    nq = case["nq"]
-    for o in case.get("ops", []):
-        w = o["w"][: CG.pool_arity(o["g"])]
-        if o["g"] in R.IONQ_OK and len(w) >= 2 and any(i >= nq for i in w) and any(i < nq for i in w):
-            return True
-    return False
 
 
 def _aqt_repeated_single_op_cop(case):
@@ -682,35 +663,17 @@ def _stratify_with_zero_qubit_ops(case):
     if g.get("k") != "cz" or g.get("pms", True):
         return False
     circuit, _, _ = CG.build_compile_circuit(case["circ"], g)
-    return any(len(op.qubits) == 0 for op in circuit.all_operations()) or _has_global_phase(circuit)
-
-
-def _route_index_error(case):
-    """F15 trigger (not expressible on the recipe alone): RouteCQC._choose_optimal_swap indexes an empty candidate list when the
-    single-swap candidates tie inside the lookahead window and no two candidate swaps are disjoint."""
-    import traceback
-
-    if _unidirectional(case):
-        return False  # F16 territory: the router may not terminate there
-    try:
-        graph, ps, und, circuit, ls, mapper, hard, mapper_kind = _route_setup(case)
-        cirq.RouteCQC(graph).route_circuit(circuit, lookahead_radius=int(case["lookahead"]) or 1, tag_inserted_swaps=bool(case["tag"]),
-                                           initial_mapper=mapper)
-    except IndexError as e:
-        return any(fr.name == "_choose_optimal_swap" for fr in traceback.extract_tb(e.__traceback__))
-    except Exception:
-        return False
-    return False
+    # zero-qubit operations reach stratified_circuit when the input has one or when a >2-qubit operation (expanded by the
+    # pre-processor) decomposes into one
+    for op in _flat_ops(circuit):
+        if len(op.qubits) == 0 or (len(op.qubits) > 2 and _has_global_phase(cirq.Circuit(op))):
+            return True
+    return any(len(op.qubits) > 2 for op in circuit.all_operations() if isinstance(op.untagged, cirq.CircuitOperation)) and _has_global_phase(circuit)
 
 
 KNOWN_FEATURES = {
     "F6_stratified_circuit_zero_qubit_ops": lambda sub, r: sub.startswith(("compile", "twoq")) and _stratify_with_zero_qubit_ops(r),
-    "F5_three_qubit_diagonal_role_swap": lambda sub, r: sub.startswith(("compile", "twoq", "ionq_native")) and _diag3_bad_order(r["circ"]),
-    "F12_ionq_native_gateset_rejects_own_global_phase": lambda sub, r: sub == "ionq_native_strict" and not _all_native(r),
-    "F13_ionq_device_partially_off_device": lambda sub, r: sub == "device_vendor" and _ionq_partially_off_device(r),
-    "F14_unitary_of_bool_controlled_operation": lambda sub, r: sub.startswith(("compile", "ionq_native")) and _bool_controlled_decomposition(r),
     "F17_aqt_gateset_drops_repetitions": lambda sub, r: sub.startswith("compile") and _aqt_repeated_single_op_cop(r),
-    "F15_route_cqc_empty_candidate_list": lambda sub, r: sub == "route" and _route_index_error(r),
     "F16_route_cqc_unidirectional_edges_livelock": lambda sub, r: sub == "route" and _unidirectional(r),
 }
 
@@ -720,10 +683,9 @@ SUBCHECKS = [
              essential={"nontrivial": 0.2, "has_ignored": 0.05, "has_cop": 0.05, "native_input": 0.05}),
     SubCheck("compile_vendor", CG.compile_cases(CG.VENDOR_KINDS), oracle_compile, quick=1600, thorough=40000, shards_quick=4,
              essential={"nontrivial": 0.15}),
-    SubCheck("ionq_native_strict", CG.compile_cases(list(NATIVE_IONQ)), oracle_ionq_native_strict, quick=200, thorough=4000, shards_quick=1,
-             shards_thorough=4),
     SubCheck("twoq", CG.twoq_cases(), oracle_twoq, quick=1200, thorough=30000, shards_quick=2),
     SubCheck("sqrt_iswap_required", CG.twoq_cases_single(), oracle_sqrt_iswap_required, quick=400, thorough=10000, shards_quick=2),
+    SubCheck("syc_tabulation", CG.twoq_cases_single(), oracle_syc_tabulation, quick=150, thorough=6000, shards_quick=1, shards_thorough=4),
     SubCheck("route", CG.route_cases(), oracle_route, quick=1500, thorough=40000, shards_quick=4, essential={"swaps_inserted": 0.2}),
     SubCheck("device_grid", CG.grid_device_cases(), oracle_device_grid, quick=800, thorough=20000, shards_quick=2,
              essential={"nontrivial": 0.5}),
